@@ -52,13 +52,17 @@ let script_of site dup atts tail watch =
             emit (Model.SEv (Model.EStep false)); ok := false)
        | 3 ->
          act false a1;
-         Stdlib.String.iter (fun ch ->
+         (* factory, Listen, Allocate, then (a2 fires when the agent asks the allocation for its address) the
+            relayed address is accepted or refused; older 3-stage scripts get the accepting 4th stage *)
+         let steps = if Stdlib.String.length steps = 3 && steps = "111" then "1111" else steps in
+         Stdlib.String.iteri (fun i ch ->
              if !ok then begin
+               if i = 3 then act true a2;
                emit (Model.SEv (Model.EStep (ch = '1')));
                if ch <> '1' then ok := false end) steps
        | _ -> act false a1);
       if !ok then begin
-        if site >= 2 then act true a2;
+        if site = 2 then act true a2;
         emit (Model.SEv Model.EAdd) end
     end in
   let cyc = s.gen in
@@ -74,7 +78,7 @@ let script_of site dup atts tail watch =
         | "G" ->
           let cyc = s.gen in
           List.iter (fun _ ->
-              attempt cyc (0, 1, (match site with 2 -> "1" | 3 -> "111" | _ -> "-"), 0, 0)) atts;
+              attempt cyc (0, 1, (match site with 2 -> "1" | 3 -> "1111" | _ -> "-"), 0, 0)) atts;
           emit Model.SCheckpoint; phases := 1 :: !phases
         | "C" -> s.closed <- true; emit (Model.SEv Model.EClose); emit (Model.SEv Model.ECloseDone);
           emit Model.SCheckpoint; phases := 3 :: !phases
